@@ -36,7 +36,7 @@ func wildProp(sys semver.System) func(*rapid.T) {
 }
 
 func TestWildcardRoundTrip(t *testing.T) {
-	for _, sys := range []semver.System{semver.DefaultSystem, semver.NPM, semver.Cargo, semver.NuGet} {
+	for _, sys := range []semver.System{semver.DefaultSystem, semver.NPM, semver.Cargo, semver.NuGet, semver.PyPI} {
 		rec.Check(t, "roundtrip-wildcards/"+sys.String(), ev.N(3000, 200000), wildProp(sys))
 	}
 }
